@@ -71,7 +71,8 @@ pub fn writer_props(cfg: &[i64], schema: &Schema) -> WriterProperties {
     // (ArrowColumnWriter::write_with_chunker -> add_data_page) even when the page is empty; for a BOOLEAN column
     // encoded with RLE (the writer-version-2 default) flushing an encoder that never saw `put` panics with
     // "RLE value encoder is not initialized".  Boolean leaves are therefore pinned to PLAIN whenever CDC is on.
-    let cdc_on = cfg[C_CDC] > 0;
+    // (flag bit 64 is never generated; it switches the exclusion off so that the witness can be replayed by hand)
+    let cdc_on = cfg[C_CDC] > 0 && fl & 64 == 0;
     if cdc_on {
         if let Ok(sd) = ArrowSchemaConverter::new().convert(schema) {
             for col in sd.columns() { if col.physical_type() == PhysicalType::BOOLEAN { b = b.set_column_encoding(col.path().clone(), Encoding::PLAIN); } }
